@@ -194,6 +194,38 @@ pub fn run(env: &Env, run: &Run) -> (Stats, Coverage) {
                         );
                     }
                 }
+                // every 32-bit value with the same low 24 bits (255 of them), and the nearest 48
+                // values with the same low 21, 20 and 16 bits: what a key truncated to w bits and
+                // slotted by any hash confuses x with
+                if x < 0x3100 || x % 251 == (run.seed % 251) as u32 || run.tier == Tier::Thorough {
+                    let mut aliases: Vec<u32> = (1..=255u32).map(|k| x.wrapping_add(k << 24)).collect();
+                    for w in [21u32, 20, 16] {
+                        aliases.extend((1..=48u32).map(|k| x.wrapping_add(k << w)));
+                    }
+                    for alias in aliases {
+                        let r = dp_cp(class, alias);
+                        h.evaluations += 1;
+                        let ok = if alias > 0x10FFFF || char::from_u32(alias).is_none() {
+                            matches!(r, Ok(DP::Disallowed) | Ok(DP::Unassigned))
+                        } else {
+                            r.as_ref().ok() == Some(&derived_property(&env.u63, alias, class))
+                        };
+                        if !ok {
+                            h.violation(
+                                "history_alias",
+                                || Case::new("alias").n(x as u64).n(alias as u64),
+                                format!("{:#x} (queried right after {:#x}) classified as {:?}", alias, x, derived_property(&env.u63, alias, class)),
+                                show_dp(&r),
+                            );
+                        }
+                        // and x itself must not have been disturbed by the alias
+                        let back = dp_cp(class, x);
+                        h.evaluations += 1;
+                        if back != before {
+                            h.violation("history_alias", || Case::new("alias").n(alias as u64).n(x as u64), format!("{:#x} (queried right after {:#x}) classified as before ({})", x, alias, show_dp(&before)), show_dp(&back));
+                        }
+                    }
+                }
                 let after = dp_cp(class, x);
                 h.evaluations += 2;
                 h.traces += 1;
@@ -215,7 +247,7 @@ pub fn run(env: &Env, run: &Run) -> (Stats, Coverage) {
             "reference_identifier": format!("{:?}", derived_property(&env.u63, v, Class::Identifier))}));
     }
     let cov = Coverage {
-        rule: "state = one 32-bit value; both classes and both entry points are evaluated on it and compared with (a) the RFC 8264 s.8 decision list recomputed from the pinned raw 6.3.0 UCD files by an independent reader, (b) the IANA registry row read by the harness's own splitter; plus single-threaded aliasing histories x -> x xor 2^b (b=16..31) -> x for scalar values x (quick: a third of them rotating with the seed + all below U+3000 and U+F900..U+10000; thorough: all); non-trivial = scalar values whose identifier value is not UNASSIGNED".into(),
+        rule: "state = one 32-bit value; both classes and both entry points are evaluated on it and compared with (a) the RFC 8264 s.8 decision list recomputed from the pinned raw 6.3.0 UCD files by an independent reader, (b) the IANA registry row read by the harness's own splitter; plus single-threaded aliasing histories x -> x xor 2^b (b=16..31) -> x, and x -> x + k*2^24 (all k) / x + k*2^w (w=21,20,16; k<=48) -> x for scalar values x (quick: a third of them rotating with the seed + all below U+3000 and U+F900..U+10000; thorough: all); non-trivial = scalar values whose identifier value is not UNASSIGNED".into(),
         alphabet: json!("u32"),
         bound_completed: bound,
         exhaustive,
@@ -230,6 +262,23 @@ pub fn run(env: &Env, run: &Run) -> (Stats, Coverage) {
 
 pub fn replay(env: &Env, case: &Case) -> Vec<Violation> {
     let mut st = Stats::default();
+    if case.op == "alias" && case.nums.len() == 2 && case.nums[0] != case.nums[1] {
+        // "second value queried right after the first"
+        let (first, second) = (case.nums[0] as u32, case.nums[1] as u32);
+        for class in [Class::Identifier, Class::Freeform] {
+            let _ = dp_cp(class, first);
+            let r = dp_cp(class, second);
+            let ok = if second > 0x10FFFF || char::from_u32(second).is_none() {
+                matches!(r, Ok(DP::Disallowed) | Ok(DP::Unassigned))
+            } else {
+                r.as_ref().ok() == Some(&derived_property(&env.u63, second, class))
+            };
+            if !ok {
+                st.violation("history_alias", || case.clone(), format!("{:#x} (queried right after {:#x}) classified as {:?}", second, first, derived_property(&env.u63, second, class)), show_dp(&r));
+            }
+        }
+        return st.violations;
+    }
     if case.op == "alias" && case.nums.len() == 2 {
         let (x, alias) = (case.nums[0] as u32, case.nums[1] as u32);
         for class in [Class::Identifier, Class::Freeform] {
